@@ -245,6 +245,115 @@ def work_history(chunk, st):
     st.sample({'history': chunk[0][0], 'versions': chunk[0][1]}, cap=12)
 
 
+# ---- compatibility ranges: the newest "appeared in" and the oldest "removed in" version over the offered algorithms
+def version_lists():
+    """distinct version-information lists of the SSH-2 database, each with one algorithm that carries it"""
+    db = H.master_db()
+    seen = {}
+    for cat in ('kex', 'key', 'enc', 'mac'):
+        for name, e in db[cat].items():
+            if e and e[0] and not name.endswith('-*'):
+                seen.setdefault(json.dumps(e[0]), (cat, name, e[0]))
+    return [seen[k] for k in sorted(seen)]
+
+
+def frame_of(lists, for_server):
+    Timeframe = runner.M['timeframe'].Timeframe
+    tf = Timeframe()
+    for v in lists:
+        tf.update(v, for_server)
+    return {p: [tf[p][i] for i in range(4)] for p in ('OpenSSH', 'Dropbear SSH', 'libssh') if p in tf}
+
+
+def combine(frames):
+    out = {}
+    for f in frames:
+        for p, vals in f.items():
+            cur = out.setdefault(p, [None] * 4)
+            for i, v in enumerate(vals):
+                if v is None:
+                    continue
+                if cur[i] is None:
+                    cur[i] = v
+                else:
+                    c = numcmp(v, cur[i])
+                    if (i % 2 == 0 and c > 0) or (i % 2 == 1 and c < 0):
+                        cur[i] = v
+    return out
+
+
+def canon_frame(f):
+    return {p: [None if v is None else vt(v) for v in vals] for p, vals in f.items()}
+
+
+def check_timeframes(st, tier):
+    vl = version_lists()
+    singles = {}
+    for fs in (True, False, None):
+        for i, (_c, _n, v) in enumerate(vl):
+            singles[(fs, i)] = frame_of([v], fs)
+    idx = range(len(vl))
+    combos = list(itertools.permutations(idx, 2))
+    tri = list(itertools.permutations(idx, 3))
+    if tier == 'quick':
+        tri = tri[::29]
+    for fs in (True, False, None):
+        for combo in combos + tri:
+            got = frame_of([vl[i][2] for i in combo], fs)
+            want = combine([singles[(fs, i)] for i in combo])
+            st.execution(None, outcome=('timeframe', len(combo), fs), root=('timeframe', combo, fs), nontrivial=('timeframe', combo, fs))
+            if canon_frame(got) != canon_frame(want):
+                prods = sorted(p for p in set(got) | set(want) if canon_frame(got).get(p) != canon_frame(want).get(p))
+                st.violation('compatibility-range:not-the-numeric-newest/oldest:%s' % '+'.join(prods),
+                             {'algorithms': [vl[i][1] for i in combo], 'version_info': [vl[i][2] for i in combo], 'for_server': fs, 'tool': got, 'numeric': want})
+    st.sample({'timeframe_version_lists': len(vl), 'pairs': len(combos), 'triples': len(tri)})
+
+
+def compat_cli_tasks(tier):
+    """legacy and modern servers whose lists are permuted: the '(gen) compatibility' line must not depend on the order and must equal the numeric range"""
+    sets = [
+        dict(kex=['diffie-hellman-group1-sha1', 'diffie-hellman-group-exchange-sha1'], key=['ssh-dss', 'ssh-rsa'], enc=['3des-cbc', 'aes128-cbc', 'arcfour'], mac=['hmac-md5', 'hmac-sha1', 'hmac-ripemd160']),
+        dict(kex=['diffie-hellman-group-exchange-sha1', 'diffie-hellman-group1-sha1'], key=['ssh-rsa', 'ssh-dss'], enc=['aes128-cbc', 'blowfish-cbc'], mac=['hmac-sha1-96', 'hmac-md5-96']),
+        dict(kex=['curve25519-sha256', 'diffie-hellman-group14-sha1'], key=['ssh-ed25519', 'ssh-rsa'], enc=['aes256-ctr', 'aes128-cbc'], mac=['hmac-sha2-256', 'hmac-sha1']),
+        dict(kex=['sntrup761x25519-sha512@openssh.com'], key=['ssh-ed25519'], enc=['aes256-gcm@openssh.com'], mac=['hmac-sha2-256-etm@openssh.com']),
+    ]
+    out = []
+    for si, base in enumerate(sets):
+        for cat in ('kex', 'key', 'enc', 'mac'):
+            for perm in itertools.permutations(base[cat]):
+                out.append((si, dict(base, **{cat: list(perm)})))
+    return out
+
+
+def work_compat_cli(chunk, st):
+    import re
+    db = H.master_db()
+    for si, lists in chunk:
+        srv = P.Server(banner=b'SSH-2.0-FrobSSH_1.0', host_keys=P.standard_host_keys(lists['key']), gex=P.GexPolicy([2048], P.STRICT), **lists)
+        res = H.audit(srv, opts=['-n', '--skip-rate-test'])
+        st.execution(res.world, outcome=('compat', res.status), root=('compat', json.dumps(lists, sort_keys=True)), nontrivial=('compat', json.dumps(lists, sort_keys=True)))
+        m = re.search(r'^\(gen\) compatibility: (.*)$', res.stdout, re.M)
+        got = m.group(1).strip() if m else None
+        want_f = combine([frame_of([db[c][n][0]], True) for c in lists for n in lists[c] if n in db[c] and db[c][n][0]])
+        parts = []
+        for prod in ('OpenSSH', 'Dropbear SSH'):
+            if prod not in want_f or want_f[prod][0] is None:
+                continue
+            a, b = want_f[prod][0], want_f[prod][1]
+            if b is None:
+                parts.append('%s %s+' % (prod, a))
+            elif a == b:
+                parts.append('%s %s' % (prod, a))
+            elif numcmp(a, b) > 0:
+                parts.append('%s %s+ (some functionality from %s)' % (prod, a, b))
+            else:
+                parts.append('%s %s-%s' % (prod, a, b))
+        want = ', '.join(parts) or None
+        if got != want:
+            st.violation('compatibility-range:report-line-differs', {'lists': lists, 'reported': got, 'numeric': want})
+    st.sample({'compatibility_line_servers': len(chunk)}, cap=3)
+
+
 def run(tier, seed):
     t0 = time.time()
     st = evidence.Stats()
@@ -263,6 +372,8 @@ def run(tier, seed):
         check_triples(product, st)
     par.pmap(work_cli, cli_tasks(), stats=st)
     par.pmap(work_history, history_tasks(), stats=st, chunk=2)
+    check_timeframes(st, tier)
+    par.pmap(work_compat_cli, compat_cli_tasks(tier), stats=st, chunk=4)
     vcases = []
     for prod, v0, cat, name, v in H.pick(cli_tasks(), seed, 12 if tier == 'quick' else 60):
         fmt, _ = PRODUCTS[prod]
@@ -275,7 +386,9 @@ def run(tier, seed):
              '%s; all ordered pairs of %d versions with 3-4 components over %s; all pairs and triples of a 60-element mixed set with patch suffixes; '
              'end-to-end: for every first-appeared version of a clean algorithm in the DB, banners just below/at/above it and multi-digit versions, '
              '"(rec) +name" iff server version >= first-appeared version; the same for every server of 2-3 servers of one product at different versions '
-             'audited in ONE invocation, in every order' % (len(v12), COMP if tier != 'quick' else 'a 10-value subset', len(v34), COMP34),
+             'audited in ONE invocation, in every order; compatibility ranges: every ordered pair (and triple; every 29th at quick) of the distinct '
+             'version-information lists of the database folded by the tool = numeric newest "appeared" / oldest "removed" of the single lists, for server, '
+             'client and both; the "(gen) compatibility" line of four servers under every permutation of each of their lists' % (len(v12), COMP if tier != 'quick' else 'a 10-value subset', len(v34), COMP34),
         assumptions=['numeric order = component-wise integer comparison with zero padding', 'pairs equal up to trailing zeros / patch level only need antisymmetry and transitivity'],
         exhaustive=True, traces_validated=validated)
 
